@@ -129,6 +129,12 @@ def main(argv=None):
         print("%s tier=%s seed=%d evaluations=%d distinct_nontrivial=%d states=%d outcomes=%d violations=%d (known=%d) wall=%.1fs"
               % (prop_id, args.tier, seed, acc.evaluations, acc.n_nontrivial, len(acc.states),
                  len(acc.outcomes), len(new), len(seen_known), time.time() - ctx.t0))
+        if new:
+            kinds = {}
+            for v in new:
+                kinds[v["kind"]] = kinds.get(v["kind"], 0) + 1
+            print("violation kinds (recorded, capped): %s; total violations counted: %d" % (
+                ", ".join("%s x%d" % kv for kv in sorted(kinds.items())), acc.violations_total))
         if broken:
             for b in broken:
                 print("BROKEN-CHECK property=%s vacuity guard failed: %s" % (prop_id, b))
